@@ -738,6 +738,12 @@ pub fn gen_c05(seed: u64) -> Plan {
             let ty = *b.rng.pick(&b.uni.pool);
             ops.push(draw_op(&mut b.rng, &[], &b.cwd, &default_abs, ty, (3, 5, 2)));
         }
+        // a legally failing call (type without an output path) on the same thread
+        if !b.uni.leaves.is_empty() && b.rng.pct(20) {
+            let leaf = *b.rng.pick(&b.uni.leaves);
+            let at = b.rng.below(ops.len() + 1);
+            ops.insert(at, Op::ToString { ty: leaf });
+        }
         threads.push(ops);
     }
     let chooser = draw_chooser(&mut b.rng, sched_seed(seed, 0), nthreads);
@@ -780,6 +786,16 @@ pub fn gen_c13(seed: u64) -> Plan {
             if b.rng.pct(25) {
                 let at = b.rng.below(ops.len() + 1);
                 ops.insert(at, Op::ToString { ty: *t });
+            }
+        }
+        // calls that legally fail (a type without an output path: `export_all` fails before,
+        // `export_to_string` inside, generation) interleaved with the successful ones on the same
+        // worker threads: a failed call must leave nothing behind that a later one picks up
+        for leaf in b.uni.leaves.clone() {
+            if b.rng.pct(60) {
+                let at = b.rng.below(ops.len() + 1);
+                let op = if b.rng.pct(70) { Op::ToString { ty: leaf } } else { Op::ExportAll { ty: leaf } };
+                ops.insert(at, op);
             }
         }
         let workers = b.rng.range(1, bound(6, 8));
